@@ -269,6 +269,40 @@ Definition spawned_env (fuel : nat) (e : entry) (cfg_names_dir user_config_dir :
   spawned_e fuel e marker upload_var c (effective_mode (dir_known cfg_names_dir user_config_dir) mode)
             localdir_ok period now tok.
 
+(* ------------------------------------------------------ the mode file *)
+
+Definition lit_local : bytes := Eval vm_compute in s2b "local".
+
+(* Dir.Mode on the file's bytes: TrimSpace of the whole content, then the part
+   before the first ' ' (the date after it does not matter here).  A missing or
+   unreadable file (None) reads as "local". *)
+Definition mode_of_bytes (data : bytes) : bytes :=
+  let m := trim_space data in
+  match index_byte m 32%N with
+  | Some i => firstn i m
+  | None => m
+  end.
+
+Definition mode_of_file (file : option bytes) : bytes :=
+  match file with Some d => mode_of_bytes d | None => lit_local end.
+
+(* Start with the mode FILE as input (what a user or an older tool wrote, not
+   only what SetMode writes) *)
+Definition program_run_file (e : entry) (cfg_names_dir user_config_dir : bool) (marker : bytes) (upload_var : bool)
+           (c : cfg) (file : option bytes) (localdir_ok : bool) (period now : Z) (tok : option Z) : result :=
+  program_run_env e cfg_names_dir user_config_dir marker upload_var c (mode_of_file file) localdir_ok period now tok.
+
+Definition spawned_file (fuel : nat) (e : entry) (cfg_names_dir user_config_dir : bool) (marker : bytes)
+           (upload_var : bool) (c : cfg) (file : option bytes) (localdir_ok : bool) (period now : Z) (tok : option Z) : list proc :=
+  spawned_env fuel e cfg_names_dir user_config_dir marker upload_var c (mode_of_file file) localdir_ok period now tok.
+
+(* hand-written ways of saying "off" *)
+Definition off_spellings : list bytes :=
+  Eval vm_compute in
+  [ s2b "off"; s2b "off" ++ [10%N]; s2b "off" ++ [13%N; 10%N]; s2b "off  "; s2b " off"; [9%N] ++ s2b "off" ++ [10%N];
+    s2b "off 2024-01-05"; s2b "off 2024-01-05" ++ [10%N]; s2b "off 2024-01-05" ++ [13%N; 10%N]; s2b "off garbage";
+    s2b "off  2024-01-05"; s2b "off" ++ [0xC2%N; 0xA0%N]; [10%N; 10%N] ++ s2b "off" ++ [10%N; 10%N] ].
+
 Definition is_sidecar (p : proc) : bool := match p_kind p with KSidecar => true | _ => false end.
 
 (* ------------------------------------------------------ oracles *)
